@@ -290,7 +290,7 @@ class Engine:
         self,
         *,
         bv: Optional[int] = None,
-        query_timeout_ms: int = 10_000,
+        query_timeout_ms: Optional[int] = None,
         max_paths: int = 100_000,
         max_seconds: float = 600.0,
         max_decisions_per_path: int = 20_000,
@@ -310,6 +310,7 @@ class Engine:
         self._prefix: List[Tuple[bool, bool]] = []
         self._trace: List[Tuple[bool, bool, str]] = []  # (taken, alt_feasible, key)
         self._vars: Dict[str, Any] = {}
+        self._model: Any = None
         self._fresh = 0
 
     # ---- expression helpers
@@ -383,9 +384,9 @@ class Engine:
         v = z3.BitVec(name, self.bv) if self.bv else z3.Int(name)
         self._vars[name] = v
         if lo is not None:
-            self._solver.add(self.cmp("__ge__", v, self.const(lo)))
+            self._add(self.cmp("__ge__", v, self.const(lo)))
         if hi is not None:
-            self._solver.add(self.cmp("__le__", v, self.const(hi)))
+            self._add(self.cmp("__le__", v, self.const(hi)))
         return SInt(self, v)
 
     def bool(self, name: str) -> SBool:
@@ -409,7 +410,7 @@ class Engine:
             raise Infeasible()
         if r == z3.unknown:
             raise Inconclusive("assume: unknown")
-        self._solver.add(e)
+        self._add(e)
 
     # ---- core
     def _check(self, *assumptions: Any) -> Any:
@@ -418,6 +419,19 @@ class Engine:
         self.solver_time += time.perf_counter() - t0
         self.queries += 1
         return r
+
+    def _add(self, c: Any) -> None:
+        """Assert c; keep the cached model only if it still satisfies everything."""
+        self._solver.add(c)
+        m = self._model
+        if m is not None and not z3.is_true(m.eval(c, model_completion=True)):
+            self._model = None
+
+    def _sat_model(self, *assumptions: Any) -> Any:
+        r = self._check(*assumptions)
+        if r == z3.sat:
+            return r, self._solver.model()
+        return r, None
 
     def decide(self, cond: Any) -> bool:
         cond = z3.simplify(cond)
@@ -428,14 +442,30 @@ class Engine:
         i = len(self._trace)
         if i >= self.max_decisions:
             raise Inconclusive("decision budget per path exceeded")
-        key = cond.sexpr() if i < 64 else ""
+        key = ""
         if i < len(self._prefix):
             taken, alt = self._prefix[i]
-            self._solver.add(cond if taken else z3.Not(cond))
+            self._add(cond if taken else z3.Not(cond))
             self._trace.append((taken, alt, key))
             return taken
-        rt = self._check(cond)
-        rf = self._check(z3.Not(cond))
+        # One side may already be known feasible from the cached model of the
+        # path condition; the other side always gets a solver query.
+        known: Optional[bool] = None
+        if self._model is not None:
+            v = self._model.eval(cond, model_completion=True)
+            if z3.is_true(v):
+                known = True
+            elif z3.is_false(v):
+                known = False
+        if known is True:
+            rt, mt = z3.sat, self._model
+            rf, mf = self._sat_model(z3.Not(cond))
+        elif known is False:
+            rf, mf = z3.sat, self._model
+            rt, mt = self._sat_model(cond)
+        else:
+            rt, mt = self._sat_model(cond)
+            rf, mf = self._sat_model(z3.Not(cond))
         if rt == z3.unknown or rf == z3.unknown:
             self.inconclusive.append(f"z3 unknown on branch #{i}")
             if rt == z3.sat:
@@ -453,6 +483,7 @@ class Engine:
         else:
             raise Infeasible()
         self._solver.add(cond if taken else z3.Not(cond))
+        self._model = mt if taken else mf
         self._trace.append((taken, alt, key))
         return taken
 
@@ -460,10 +491,12 @@ class Engine:
         e = z3.simplify(e)
         if z3.is_int_value(e) or z3.is_bv_value(e):
             return e.as_long()
-        r = self._check()
-        if r != z3.sat:
-            raise Inconclusive("realise: path condition not sat")
-        v = self._solver.model().eval(e, model_completion=True)
+        if self._model is None:
+            r, m = self._sat_model()
+            if r != z3.sat:
+                raise Inconclusive("realise: path condition not sat")
+            self._model = m
+        v = self._model.eval(e, model_completion=True)
         val = v.as_long()
         if self.decide(e == v):
             return val
@@ -471,10 +504,12 @@ class Engine:
         return self.realise(e)
 
     def model(self) -> Dict[str, Any]:
-        r = self._check()
-        if r != z3.sat:
-            return {}
-        m = self._solver.model()
+        m = self._model
+        if m is None:
+            r = self._check()
+            if r != z3.sat:
+                return {}
+            m = self._solver.model()
         out: Dict[str, Any] = {}
         for name, v in self._vars.items():
             val = m.eval(v, model_completion=True)
@@ -494,11 +529,13 @@ class Engine:
             if self.paths >= self.max_paths or time.monotonic() > t_end:
                 self.inconclusive.append("exploration budget hit (paths or seconds)")
                 return results
-            self._solver = z3.Solver()
-            self._solver.set("timeout", self.query_timeout_ms)
+            self._solver = z3.SimpleSolver()
+            if self.query_timeout_ms:
+                self._solver.set("timeout", self.query_timeout_ms)
             self._prefix = prefix
             self._trace = []
             self._vars = {}
+            self._model = None
             res = PathResult()
             try:
                 res.value = harness(self)
